@@ -263,10 +263,6 @@ func (ipv6 *IPv6) DecodeFromBytes(data []byte, df gopacket.DecodeFeedback) error
 		}
 	}
 
-	if ipv6.Length == 0 {
-		return fmt.Errorf("IPv6 length 0, but next header is %v, not HopByHop", ipv6.NextHeader)
-	}
-
 	pEnd := int(ipv6.Length)
 	if ipv6.HopByHop != nil {
 		// The payload length counts the hop-by-hop header, which was stripped from Payload above.
